@@ -610,6 +610,48 @@ def static_naming(ctx):
                     'scope', ig.file, ig.line)
 
 
+def static_array_predicates(ctx):
+    """The code generator decides `static (inline header) or dynamic
+    (reference cell)` from VarDeclClause.array_dims_are_const; memlayout
+    reserves the storage from Type.is_static_array.  The two must be the same
+    predicate over the dimension ranges."""
+    import re as _re
+    repo = ctx.repo
+    rule = 'C04.static-array-predicates-agree'
+    ctx.rule(rule, 'VarDeclClause.array_dims_are_const (used by the code '
+             'generator) and Type.is_static_array (used by the layout) '
+             'quantify the same per-dimension predicate with the same '
+             'quantifier (all / any) over the dimension list')
+    sites = [('qbee.stmt', 'VarDeclClause.array_dims_are_const'),
+             ('qbee.expr', 'Type.is_static_array')]
+    got = []
+    for mod, qn in sites:
+        f = repo.func(mod, qn)
+        q = None
+        for c in ast.walk(f.node):
+            if isinstance(c, ast.Call) and dotted(c.func) in ('all', 'any') \
+                    and c.args and isinstance(c.args[0], (ast.GeneratorExp,
+                                                          ast.ListComp)):
+                ge = c.args[0]
+                var = ge.generators[0].target
+                vname = var.id if isinstance(var, ast.Name) else '?'
+                elt = _re.sub(rf'\b{vname}\b', '_d', unparse(ge.elt))
+                q = (dotted(c.func), elt, len(ge.generators[0].ifs))
+        if q is None:
+            raise AnalysisError(f'anchor vanished: quantifier in {qn}')
+        got.append((f, qn, q))
+        ctx.instance(rule, f'{f.file}:{qn}', sample={'quantifier': q[0],
+                                                     'predicate': q[1]})
+    if got[0][2] != got[1][2]:
+        f = got[0][0]
+        ctx.finding(rule, f'{f.file}:{got[0][1]}',
+                    f'{got[0][1]} is {got[0][2][0]}({got[0][2][1]}) but '
+                    f'{got[1][1]} is {got[1][2][0]}({got[1][2][1]}): for an '
+                    f'array with one constant and one run-time dimension '
+                    f'the generator and the layout disagree on whether the '
+                    f'array is inline or behind a reference', f.file, f.line)
+
+
 def global_lookup_key(ctx):
     """init_code registers STATIC variables in the global area under
     Variable.full_name; every site that turns a variable operand into a
@@ -723,6 +765,7 @@ def run(ctx):
     frame_layout(ctx)
     deferred_frame_size(ctx)
     static_naming(ctx)
+    static_array_predicates(ctx)
     global_lookup_key(ctx)
     param_cells(ctx)
     from .. import strides
